@@ -453,7 +453,7 @@ def _s(c, ref):
 def _order_contract(target, label, mk):
     @contract(target, prop="C04", name=f"{target.split(':')[1]}[{label}: children are printed in source order]")
     def oc(c):
-        c.opaque_str_classes |= {"BlockNode", "ConditionalBlockNode", "MultiExpressionBlockNode", "Expression", "Node", "BooleanExpression"}
+        c.opaque_str_classes |= {"BlockNode", "ConditionalBlockNode", "MultiExpressionBlockNode", "Expression", "Node", "BooleanExpression", "LoopExpression"}
         self, expected = mk(c)
         c.call(self_val=self)
         c.raises()
@@ -519,3 +519,68 @@ def _block_orders():
 
 
 _block_orders()
+
+
+# ---- literal text: printed as it is, and inside a raw block exactly when it contains an opening
+# ---- delimiter (`{{` or `{%`, closed or not: an unterminated one would start markup when re-parsed)
+
+REPLAY_CONTENT_RAW = r'''
+def run(m):
+    from liquid import Environment
+    env = Environment()
+    bad = []
+    for src in ("{% raw %}{{ {% endraw %}user.name }}", "{% raw %}{% {% endraw %}if x %}", "a{% raw %}{{ x }}{% endraw %}b", "{% raw %}}} %}{% endraw %}"):
+        try:
+            t = env.from_string(src)
+            t2 = env.from_string(str(t))
+            if t.render(user={"name": "N"}, x=1) != t2.render(user={"name": "N"}, x=1) or str(t2) != str(t):
+                bad.append((src, str(t)))
+        except Exception as e:
+            bad.append((src, type(e).__name__))
+    return {"violated": bool(bad), "observed": bad[:3], "witness": "raw-text-with-an-unterminated-delimiter"}
+'''
+
+
+@contract("liquid.builtin.content:ContentNode.__str__", prop="C04", name="ContentNode.__str__[any text: raw-wrapped exactly when it contains an opening delimiter]")
+def content_str(c):
+    text = c.str("text")
+    self = c.obj("liquid.builtin.content:ContentNode", "content", text=text, token=NONE)
+    c.call(self_val=self)
+    has = z3.Or(z3.Contains(text.t, z3.StringVal("{{")), z3.Contains(text.t, z3.StringVal("{%")))
+    c.ensures("verbatim-or-wrapped-in-a-raw-block", lambda r: r.value.t == z3.If(has, z3.Concat(z3.StringVal("{% raw %}"), text.t, z3.StringVal("{% endraw %}")), text.t))
+    c.raises()
+    c.replay("code", code=REPLAY_CONTENT_RAW)
+
+
+# ---- for / tablerow: the else block is printed whenever there is one (also a blank one: it may
+# ---- assign or capture), after the loop body
+
+FOR_M = "liquid.builtin.tags.for_tag"
+
+REPLAY_FOR_ELSE = r'''
+def run(m):
+    from liquid import Environment
+    env = Environment()
+    bad = []
+    for src in ("{% for x in xs %}{{ x }}{% else %}{% assign seen = 'none' %}{% endfor %}[{{ seen }}]", "{% for x in xs %}{{ x }}{% else %} {% endfor %}|"):
+        t = env.from_string(src)
+        t2 = env.from_string(str(t))
+        if t.render(xs=[]) != t2.render(xs=[]) or str(t2) != str(t):
+            bad.append((src, str(t)))
+    return {"violated": bool(bad), "observed": bad, "witness": "blank-else-block-not-printed"}
+'''
+
+for _has_default in (False, True):
+    def _mkfor(has_default):
+        def mk(c):
+            expr = c.obj("liquid.builtin.expressions.loop:LoopExpression", "loop_expression", token=NONE)
+            block = c.obj(AST_M + ":BlockNode", "body", token=NONE, blank=c.bool("body_blank"))
+            default = c.obj(AST_M + ":BlockNode", "else_block", token=NONE, blank=c.bool("else_blank")) if has_default else NONE
+            self = c.obj(FOR_M + ":ForNode", "for", token=NONE, expression=expr, block=block, default=default, blank=c.bool("blank"))
+            parts = [z3.StringVal("{% for "), _s(c, expr), z3.StringVal(" %}"), _s(c, block)]
+            if has_default:
+                parts += [z3.StringVal("{% else %}"), _s(c, default)]
+            parts.append(z3.StringVal("{% endfor %}"))
+            return self, parts
+        _order_contract(FOR_M + ":ForNode.__str__", f"else={'yes(blank or not)' if has_default else 'no'}", mk)
+    _mkfor(_has_default)
